@@ -59,7 +59,18 @@ def parseFilter (j : Json) : Option FilterExpr := do
   match k with
   | "e" => some (.exec n) | "s" => some (.suite n) | "t" => some (.tag n) | _ => none
 
-def parseUsage (j : Json) : Option Usage := do
+def parseArg (j : Json) : Option Arg := do
+  let k ← getStr? j "kind"
+  match k with
+  | "name" => some (.name ((getBool? j "known").getD false))
+  | _ => (parseFilter j).map Arg.filter
+
+def parseUsageArgs (j : Json) : Option Usage := do
+  let as ← getArr? j "args"
+  let as ← as.toList.mapM parseArg
+  pure (usageOfArgs as ((getBool? j "schedKnown").getD true) ((getBool? j "machineKnown").getD true))
+
+def parseUsage0 (j : Json) : Option Usage := do
   let fs := (getArr? j "filters").getD #[]
   let fs ← fs.toList.mapM parseFilter
   pure { schedKnown := (getBool? j "schedKnown").getD true, filters := fs,
@@ -98,6 +109,11 @@ def parseScn (j : Json) : Option Scn := do
   let cf : Conf := { run := listFn rcs, doBuilds := (getBool? j "doBuilds").getD true,
                      buildOk := fun b => !failing.contains b }
   pure { cf := cf, g := { rs := listFn rss }, n := n, faulty := faulty }
+
+def parseUsage (j : Json) : Option Usage :=
+  match getArr? j "args" with
+  | some _ => parseUsageArgs j
+  | none => parseUsage0 j
 
 def runStJson (s : RunSt) : Json :=
   (stJson s.t).mergeObj (Json.mkObj [("cmdBuilt", Json.bool s.cmdBuilt), ("pending", Json.bool s.pending),
